@@ -81,8 +81,11 @@ def run(chk):
     phrases = factlib.phrases(facts)
     rnd = random.Random(chk.seed + 18)
     queries = generate(rnd, phrases, p["queries"])
-    queries += ["population NOT finland", "population not finland", "population finland / population finland", "2 * pi", "pi * pi", "earth mass / moon mass"]
-    queries = list(dict.fromkeys(queries))
+    special = ["population NOT finland", "population not finland", "population finland / population finland", "2 * pi", "pi * pi", "earth mass / moon mass"]
+    # queries that could interact through shared state come first: they are the ones also evaluated on a database of their own
+    special += [q for q in queries if any(c.isupper() for c in q)][:20]
+    special += [q for q in queries if len(set(q.replace("(", " ").replace(")", " ").split(" / "))) == 1 and " / " in q][:10]
+    queries = list(dict.fromkeys(special + queries))
     w = vlib.workdir("c18-run")
     inp, out = os.path.join(w, "queries.ndjson"), os.path.join(w, "rec.ndjson")
     vlib.write_ndjson(inp, queries)
